@@ -2950,7 +2950,13 @@ def groupby_reduce(
         ).reshape(result.shape[:-1] + grp_shape)
         groups = final_groups
 
-    if is_bool_array and (_is_minmax_reduction(func) or _is_first_last_reduction(func)):
+    if (
+        is_bool_array
+        and (_is_minmax_reduction(func) or _is_first_last_reduction(func))
+        # a requested dtype or fill_value (e.g. NaN for absent labels) cannot be held by bool
+        and dtype is None
+        and fill_value is None
+    ):
         result = result.astype(bool)
 
     # Output of count has an int dtype.
